@@ -122,7 +122,77 @@ func srtResolve(c *Ctx) *srtRoles {
 	if len(r.smLookup) == 0 || r.frameT == nil {
 		fatalf("anchor unresolved: the VM's source-map lookup (func(frame) errors.Span indexing map[string][]errors.Span)")
 	}
+	// accessors: functions of the package whose every return is the result of a
+	// lookup (`func (c *Core) currentSpan() errors.Span { return c.parent.SourceMap(*c.callFrame()) }`)
+	// are lookups themselves — of the frame they are given or pick.
+	for changed := true; changed; {
+		changed = false
+		for _, fd := range AllFuncDecls(rp) {
+			fn, _ := rp.TypesInfo.Defs[fd.Name].(*types.Func)
+			if fn == nil || r.smLookup[fn] {
+				continue
+			}
+			sig := fn.Type().(*types.Signature)
+			if sig.Results().Len() != 1 || !types.Identical(sig.Results().At(0).Type(), r.spanT) {
+				continue
+			}
+			rets, all := 0, true
+			ast.Inspect(fd.Body, func(n ast.Node) bool {
+				switch x := n.(type) {
+				case *ast.FuncLit:
+					return false
+				case *ast.ReturnStmt:
+					rets++
+					if len(x.Results) != 1 {
+						all = false
+						return true
+					}
+					st, _ := r.classifySpanExpr(rp.TypesInfo, srtEnclosing{decl: fd}, x.Results[0], 0)
+					if st != Discharged || !r.isLookupDerived(rp.TypesInfo, fd, x.Results[0], 0) {
+						all = false
+					}
+				}
+				return true
+			})
+			if rets > 0 && all {
+				r.smLookup[fn] = true
+				changed = true
+			}
+		}
+	}
 	return r
+}
+
+// isLookupDerived: the span expression is (a local holding) the result of a
+// source-map lookup — not a parameter or the span of another value.
+func (r *srtRoles) isLookupDerived(info *types.Info, fd *ast.FuncDecl, e ast.Expr, depth int) bool {
+	e = ast.Unparen(e)
+	if depth > 4 {
+		return false
+	}
+	switch x := e.(type) {
+	case *ast.CallExpr:
+		fn := CalleeOf(info, x)
+		return fn != nil && r.smLookup[fn]
+	case *ast.Ident:
+		obj := info.Uses[x]
+		n, ok := 0, true
+		ast.Inspect(fd.Body, func(m ast.Node) bool {
+			if as, isAs := m.(*ast.AssignStmt); isAs && len(as.Lhs) == len(as.Rhs) {
+				for i, l := range as.Lhs {
+					if id, isId := l.(*ast.Ident); isId && obj != nil && (info.Defs[id] == obj || info.Uses[id] == obj) {
+						n++
+						if !r.isLookupDerived(info, fd, as.Rhs[i], depth+1) {
+							ok = false
+						}
+					}
+				}
+			}
+			return true
+		})
+		return n > 0 && ok
+	}
+	return false
 }
 
 func ruleSpanRuntime(c *Ctx) []Obligation {
@@ -430,6 +500,208 @@ type srtOrdState struct {
 	deferred map[types.Object]bool // closures that look the span up when called
 }
 
+// srtSumm is what a function of the package does to the order "span read,
+// then frame moved" when it is called from an instruction case.
+type srtSumm struct {
+	lookups     int      // source-map lookups inside (transitively)
+	viol        []string // a lookup after a move inside the function itself
+	lookupFirst string   // a lookup reachable while the function has not moved the frame yet ("" = none)
+	exitMoved   string   // how the frame may have moved when the function returns ("" = not)
+}
+
+type srtFlow struct {
+	r      *srtRoles
+	c      *Ctx
+	info   *types.Info
+	movers map[*types.Func]string
+	decls  map[*types.Func]*ast.FuncDecl
+	summ   map[*types.Func]*srtSumm
+	active map[*types.Func]bool
+}
+
+func (f *srtFlow) isMove(n ast.Node) string {
+	info, r := f.info, f.r
+	switch x := n.(type) {
+	case *ast.IncDecStmt:
+		if spFieldOf(info, x.X) == r.ipF {
+			return exprStr(x.X) + x.Tok.String()
+		}
+	case *ast.AssignStmt:
+		for _, l := range x.Lhs {
+			if spFieldOf(info, l) == r.ipF {
+				return exprStr(l) + " " + x.Tok.String() + " …"
+			}
+			if st, ok := ast.Unparen(l).(*ast.StarExpr); ok {
+				if t := info.Types[st.X].Type; t != nil {
+					if p, ok := t.(*types.Pointer); ok && types.Identical(p.Elem(), r.frameT) {
+						return "*" + exprStr(st.X) + " = …"
+					}
+				}
+			}
+		}
+	case *ast.CallExpr:
+		if fn := CalleeOf(info, x); fn != nil {
+			if why, ok := f.movers[fn]; ok {
+				return fn.Name() + "() " + why
+			}
+		}
+	}
+	return ""
+}
+
+// summary walks a function of the package once (memoised, depth-limited).
+func (f *srtFlow) summary(fn *types.Func, depth int) *srtSumm {
+	if s := f.summ[fn]; s != nil {
+		return s
+	}
+	fd := f.decls[fn]
+	if fd == nil || f.r.smLookup[fn] || f.active[fn] || depth > 3 {
+		return &srtSumm{}
+	}
+	f.active[fn] = true
+	s, _, overflow := f.walk(fd.Body.List, depth)
+	delete(f.active, fn)
+	if overflow {
+		s = &srtSumm{} // too many paths: no claim about the callee (as before it was followed at all)
+	}
+	f.summ[fn] = s
+	return s
+}
+
+// walk explores a statement list path by path: a lookup after a move is a
+// violation; calls of package functions contribute their summary.
+func (f *srtFlow) walk(body []ast.Stmt, depth int) (*srtSumm, int, bool) {
+	info, r, c := f.info, f.r, f.c
+	out := &srtSumm{}
+	seen := map[string]bool{}
+	addViol := func(v string) {
+		if !seen[v] {
+			seen[v] = true
+			out.viol = append(out.viol, v)
+		}
+	}
+	scan := func(st *srtOrdState, n ast.Node) {
+		ast.Inspect(n, func(m ast.Node) bool {
+			switch x := m.(type) {
+			case *ast.FuncLit:
+				return false // looked up lazily: handled through the variable
+			case *ast.CallExpr:
+				fn := CalleeOf(info, x)
+				if fn != nil && r.smLookup[fn] {
+					if len(st.moved) > 0 {
+						addViol(fmt.Sprintf("%s at %s is evaluated after %s on path {%s}", exprStr(x), c.Pos(x.Pos()), strings.Join(st.moved, ", "), strings.Join(st.trail, "; ")))
+					} else if out.lookupFirst == "" {
+						out.lookupFirst = exprStr(x) + " at " + c.Pos(x.Pos())
+					}
+				}
+				// calling / passing a deferred lookup closure
+				for _, a := range append([]ast.Expr{x.Fun}, x.Args...) {
+					if id, ok := ast.Unparen(a).(*ast.Ident); ok && st.deferred[info.Uses[id]] {
+						if len(st.moved) > 0 {
+							addViol(fmt.Sprintf("closure %s (source map lookup) is used at %s after %s", id.Name, c.Pos(x.Pos()), strings.Join(st.moved, ", ")))
+						} else if out.lookupFirst == "" {
+							out.lookupFirst = "closure " + id.Name + " at " + c.Pos(x.Pos())
+						}
+					}
+				}
+				mv := f.isMove(x)
+				if fn != nil && !r.smLookup[fn] && f.decls[fn] != nil {
+					// a case body (or a part of it) that lives in its own function
+					cs := f.summary(fn, depth+1)
+					if cs.lookupFirst != "" {
+						if len(st.moved) > 0 {
+							addViol(fmt.Sprintf("%s() looks the span up (%s) and is called at %s after %s on path {%s}", fn.Name(), cs.lookupFirst, c.Pos(x.Pos()), strings.Join(st.moved, ", "), strings.Join(st.trail, "; ")))
+						} else if out.lookupFirst == "" {
+							out.lookupFirst = cs.lookupFirst
+						}
+					}
+					for _, v := range cs.viol {
+						addViol("in " + fn.Name() + "(): " + v)
+					}
+					if mv == "" && cs.exitMoved != "" {
+						mv = fn.Name() + "() → " + cs.exitMoved
+					}
+				}
+				if mv != "" {
+					st.moved = append(st.moved, mv)
+				}
+			case *ast.IncDecStmt, *ast.AssignStmt:
+				// evaluate RHS lookups first (they precede the store)
+				if as, ok := x.(*ast.AssignStmt); ok {
+					for i, rhs := range as.Rhs {
+						if fl, ok := ast.Unparen(rhs).(*ast.FuncLit); ok && i < len(as.Lhs) {
+							has := false
+							ast.Inspect(fl.Body, func(k ast.Node) bool {
+								if call, ok := k.(*ast.CallExpr); ok {
+									if fn := CalleeOf(info, call); fn != nil && r.smLookup[fn] {
+										has = true
+									}
+								}
+								return true
+							})
+							if id, ok := as.Lhs[i].(*ast.Ident); ok && has {
+								if o := info.Defs[id]; o != nil {
+									st.deferred[o] = true
+								}
+							}
+						}
+					}
+				}
+			}
+			return true
+		})
+		// stores happen after the operands were evaluated
+		switch x := n.(type) {
+		case *ast.IncDecStmt, *ast.AssignStmt:
+			if mv := f.isMove(x); mv != "" {
+				st.moved = append(st.moved, mv)
+			}
+		}
+	}
+	w := &Walker[*srtOrdState]{
+		Clone: func(s *srtOrdState) *srtOrdState {
+			n := &srtOrdState{moved: append([]string(nil), s.moved...), trail: append([]string(nil), s.trail...), deferred: map[types.Object]bool{}}
+			for k, v := range s.deferred {
+				n.deferred[k] = v
+			}
+			return n
+		},
+		IsPanic: func(s ast.Stmt) bool { return IsPanicCall(info, s) },
+		OnStmt: func(st *srtOrdState, s ast.Stmt) (*srtOrdState, bool) {
+			scan(st, s)
+			return st, true
+		},
+		OnCond: func(st *srtOrdState, cond ast.Expr, taken bool) (*srtOrdState, bool) {
+			scan(st, cond)
+			if len(st.trail) < 12 {
+				st.trail = append(st.trail, fmt.Sprintf("%s:%v", spShort(exprStr(cond)), taken))
+			}
+			return st, true
+		},
+		Exit: func(st *srtOrdState, o outcome) {
+			if o.kind != cPanic && len(st.moved) > 0 && out.exitMoved == "" {
+				out.exitMoved = st.moved[0]
+			}
+		},
+		MaxPaths: 5000,
+	}
+	w.Run(&ast.BlockStmt{List: body}, &srtOrdState{deferred: map[types.Object]bool{}})
+	// lookups inside, for the anti-vacuity count
+	ast.Inspect(&ast.BlockStmt{List: body}, func(n ast.Node) bool {
+		if call, ok := n.(*ast.CallExpr); ok {
+			if fn := CalleeOf(info, call); fn != nil {
+				if r.smLookup[fn] {
+					out.lookups++
+				} else if f.decls[fn] != nil {
+					out.lookups += f.summary(fn, depth+1).lookups
+				}
+			}
+		}
+		return true
+	})
+	return out, w.Paths, w.Overflow
+}
+
 func srtDispatchOrder(r *srtRoles) []Obligation {
 	c := r.c
 	rp := c.Pkg("homescript/runtime")
@@ -439,36 +711,46 @@ func srtDispatchOrder(r *srtRoles) []Obligation {
 	if opT == nil {
 		fatalf("anchor unresolved: compiler.Opcode")
 	}
-	// the dispatch: Core methods with a switch whose tag has type compiler.Opcode
+	// the dispatch: every switch in a Core method whose tag has type compiler.Opcode
 	type disp struct {
 		fd *ast.FuncDecl
 		sw *ast.SwitchStmt
 	}
 	var disps []disp
+	flow := &srtFlow{r: r, c: c, info: info, movers: map[*types.Func]string{}, decls: map[*types.Func]*ast.FuncDecl{}, summ: map[*types.Func]*srtSumm{}, active: map[*types.Func]bool{}}
 	for _, fd := range AllFuncDecls(rp) {
+		fn, _ := info.Defs[fd.Name].(*types.Func)
+		if fn != nil {
+			flow.decls[fn] = fd
+		}
 		if fd.Recv == nil {
 			continue
 		}
-		fn, _ := info.Defs[fd.Name].(*types.Func)
 		if fn == nil || recvNamed(fn.Type().(*types.Signature).Recv().Type()) != r.coreT {
 			continue
 		}
-		for _, s := range fd.Body.List {
-			if sw, ok := s.(*ast.SwitchStmt); ok && sw.Tag != nil {
-				if t := info.Types[sw.Tag].Type; t != nil && types.Identical(t, opT) && len(sw.Body.List) > 20 {
+		ast.Inspect(fd.Body, func(n ast.Node) bool {
+			if _, ok := n.(*ast.FuncLit); ok {
+				return false
+			}
+			if sw, ok := n.(*ast.SwitchStmt); ok && sw.Tag != nil {
+				if t := info.Types[sw.Tag].Type; t != nil && types.Identical(t, opT) {
 					disps = append(disps, disp{fd, sw})
 				}
 			}
-		}
+			return true
+		})
 	}
-	if len(disps) == 0 {
-		fatalf("anchor unresolved: the Core method dispatching on compiler.Opcode")
+	nClauses := 0
+	for _, d := range disps {
+		nClauses += len(d.sw.Body.List)
 	}
-	// which Core methods move the frame (push/pop call stack, write IP)?
-	movers := map[*types.Func]string{}
-	for _, fd := range AllFuncDecls(rp) {
-		fn, _ := info.Defs[fd.Name].(*types.Func)
-		if fn == nil || fd.Recv == nil {
+	if len(disps) == 0 || nClauses <= 20 {
+		fatalf("anchor unresolved: the Core method(s) dispatching on compiler.Opcode (%d switch(es), %d clauses)", len(disps), nClauses)
+	}
+	// which methods move the frame (push/pop call stack)?
+	for fn, fd := range flow.decls {
+		if fd.Recv == nil {
 			continue
 		}
 		ast.Inspect(fd.Body, func(n ast.Node) bool {
@@ -476,7 +758,7 @@ func srtDispatchOrder(r *srtRoles) []Obligation {
 				for _, l := range as.Lhs {
 					if f := spFieldOf(info, l); f != nil {
 						if sl, ok := f.Type().(*types.Slice); ok && types.Identical(sl.Elem(), r.frameT) && f.Name() != "ExceptionCatchLabels" {
-							movers[fn] = "changes " + f.Name()
+							flow.movers[fn] = "changes " + f.Name()
 						}
 					}
 				}
@@ -486,6 +768,7 @@ func srtDispatchOrder(r *srtRoles) []Obligation {
 	}
 	var obs []Obligation
 	for _, d := range disps {
+		flow.active[info.Defs[d.fd.Name].(*types.Func)] = true
 		for _, cl := range d.sw.Body.List {
 			cc := cl.(*ast.CaseClause)
 			var names []string
@@ -500,134 +783,24 @@ func srtDispatchOrder(r *srtRoles) []Obligation {
 			if len(names) > 0 {
 				label = "case " + strings.Join(names, ",")
 			}
+			sm, paths, overflow := flow.walk(cc.Body, 0)
 			// does the clause look the span up at all?
-			lookups := 0
-			ast.Inspect(cc, func(n ast.Node) bool {
-				if call, ok := n.(*ast.CallExpr); ok {
-					if fn := CalleeOf(info, call); fn != nil && r.smLookup[fn] {
-						lookups++
-					}
-				}
-				return true
-			})
-			if lookups == 0 {
+			if sm.lookups == 0 {
 				continue
 			}
 			key := fmt.Sprintf("runtime.%s|%s|span read before frame moves", FuncName(d.fd), label)
-			var viol []string
-			isMove := func(n ast.Node) string {
-				switch x := n.(type) {
-				case *ast.IncDecStmt:
-					if spFieldOf(info, x.X) == r.ipF {
-						return exprStr(x.X) + x.Tok.String()
-					}
-				case *ast.AssignStmt:
-					for _, l := range x.Lhs {
-						if spFieldOf(info, l) == r.ipF {
-							return exprStr(l) + " " + x.Tok.String() + " …"
-						}
-						if st, ok := ast.Unparen(l).(*ast.StarExpr); ok {
-							if t := info.Types[st.X].Type; t != nil {
-								if p, ok := t.(*types.Pointer); ok && types.Identical(p.Elem(), r.frameT) {
-									return "*" + exprStr(st.X) + " = …"
-								}
-							}
-						}
-					}
-				case *ast.CallExpr:
-					if fn := CalleeOf(info, x); fn != nil {
-						if why, ok := movers[fn]; ok {
-							return fn.Name() + "() " + why
-						}
-					}
-				}
-				return ""
-			}
-			scan := func(st *srtOrdState, n ast.Node) {
-				ast.Inspect(n, func(m ast.Node) bool {
-					switch x := m.(type) {
-					case *ast.FuncLit:
-						return false // looked up lazily: handled through the variable
-					case *ast.CallExpr:
-						if fn := CalleeOf(info, x); fn != nil && r.smLookup[fn] && len(st.moved) > 0 {
-							viol = append(viol, fmt.Sprintf("%s at %s is evaluated after %s on path {%s}", exprStr(x), c.Pos(x.Pos()), strings.Join(st.moved, ", "), strings.Join(st.trail, "; ")))
-						}
-						// calling / passing a deferred lookup closure
-						for _, a := range append([]ast.Expr{x.Fun}, x.Args...) {
-							if id, ok := ast.Unparen(a).(*ast.Ident); ok && st.deferred[info.Uses[id]] && len(st.moved) > 0 {
-								viol = append(viol, fmt.Sprintf("closure %s (source map lookup) is used at %s after %s", id.Name, c.Pos(x.Pos()), strings.Join(st.moved, ", ")))
-							}
-						}
-						if mv := isMove(x); mv != "" {
-							st.moved = append(st.moved, mv)
-						}
-					case *ast.IncDecStmt, *ast.AssignStmt:
-						// evaluate RHS lookups first (they precede the store)
-						if as, ok := x.(*ast.AssignStmt); ok {
-							for i, rhs := range as.Rhs {
-								if fl, ok := ast.Unparen(rhs).(*ast.FuncLit); ok && i < len(as.Lhs) {
-									has := false
-									ast.Inspect(fl.Body, func(k ast.Node) bool {
-										if call, ok := k.(*ast.CallExpr); ok {
-											if fn := CalleeOf(info, call); fn != nil && r.smLookup[fn] {
-												has = true
-											}
-										}
-										return true
-									})
-									if id, ok := as.Lhs[i].(*ast.Ident); ok && has {
-										if o := info.Defs[id]; o != nil {
-											st.deferred[o] = true
-										}
-									}
-								}
-							}
-						}
-					}
-					return true
-				})
-				// stores happen after the operands were evaluated
-				switch x := n.(type) {
-				case *ast.IncDecStmt, *ast.AssignStmt:
-					if mv := isMove(x); mv != "" {
-						st.moved = append(st.moved, mv)
-					}
-				}
-			}
-			w := &Walker[*srtOrdState]{
-				Clone: func(s *srtOrdState) *srtOrdState {
-					n := &srtOrdState{moved: append([]string(nil), s.moved...), trail: append([]string(nil), s.trail...), deferred: map[types.Object]bool{}}
-					for k, v := range s.deferred {
-						n.deferred[k] = v
-					}
-					return n
-				},
-				IsPanic: func(s ast.Stmt) bool { return IsPanicCall(info, s) },
-				OnStmt: func(st *srtOrdState, s ast.Stmt) (*srtOrdState, bool) {
-					scan(st, s)
-					return st, true
-				},
-				OnCond: func(st *srtOrdState, cond ast.Expr, taken bool) (*srtOrdState, bool) {
-					scan(st, cond)
-					if len(st.trail) < 12 {
-						st.trail = append(st.trail, fmt.Sprintf("%s:%v", spShort(exprStr(cond)), taken))
-					}
-					return st, true
-				},
-				MaxPaths: 5000,
-			}
-			w.Run(&ast.BlockStmt{List: cc.Body}, &srtOrdState{deferred: map[types.Object]bool{}})
 			ob := Obligation{Key: key, Pos: c.Pos(cc.Pos()), Nontrivial: true}
 			switch {
-			case w.Overflow:
+			case overflow:
 				ob.Status, ob.Detail = Undecided, "path cap exceeded"
-			case len(viol) > 0:
-				ob.Status, ob.Detail = Violated, viol[0]+": the span belongs to the instruction AFTER this one (or to another frame)"
+			case len(sm.viol) > 0:
+				ob.Status, ob.Detail = Violated, sm.viol[0]+": the span belongs to the instruction AFTER this one (or to another frame)"
 			default:
-				ob.Status, ob.Detail = Discharged, fmt.Sprintf("%d lookup(s), all before any write to %s / call-stack change (%d paths)", lookups, r.ipF.Name(), w.Paths)
+				ob.Status, ob.Detail = Discharged, fmt.Sprintf("%d lookup(s), all before any write to %s / call-stack change (%d paths)", sm.lookups, r.ipF.Name(), paths)
 			}
 			obs = append(obs, ob)
 		}
+		delete(flow.active, info.Defs[d.fd.Name].(*types.Func))
 	}
 	return obs
 }
@@ -954,6 +1127,63 @@ func srtLockstepLocals(info *types.Info, fd *ast.FuncDecl, a, b ast.Expr) (strin
 
 // ---- (d) copy loops keep instruction and span index aligned ----
 
+// srtDeref: a local that is defined exactly once (and never assigned again) is
+// the expression it was defined from.
+func srtDeref(info *types.Info, fd *ast.FuncDecl, e ast.Expr) ast.Expr {
+	for depth := 0; depth < 4; depth++ {
+		id, ok := ast.Unparen(e).(*ast.Ident)
+		if !ok {
+			return ast.Unparen(e)
+		}
+		obj := info.Uses[id]
+		if obj == nil {
+			return id
+		}
+		var def ast.Expr
+		n := 0
+		ast.Inspect(fd.Body, func(m ast.Node) bool {
+			switch x := m.(type) {
+			case *ast.AssignStmt:
+				for i, l := range x.Lhs {
+					if lid, ok := l.(*ast.Ident); ok && (info.Defs[lid] == obj || info.Uses[lid] == obj) {
+						n++
+						if len(x.Lhs) == len(x.Rhs) {
+							def = x.Rhs[i]
+						} else {
+							n++ // multi-value: not an alias
+						}
+					}
+				}
+			case *ast.ValueSpec:
+				for i, nm := range x.Names {
+					if info.Defs[nm] == obj {
+						n++
+						if i < len(x.Values) {
+							def = x.Values[i]
+						}
+					}
+				}
+			case *ast.IncDecStmt:
+				if lid, ok := x.X.(*ast.Ident); ok && info.Uses[lid] == obj {
+					n += 2
+				}
+			case *ast.RangeStmt:
+				for _, l := range []ast.Expr{x.Key, x.Value} {
+					if lid, ok := l.(*ast.Ident); ok && info.Defs[lid] == obj {
+						n += 2
+					}
+				}
+			}
+			return true
+		})
+		if n != 1 || def == nil {
+			return id
+		}
+		e = def
+	}
+	return ast.Unparen(e)
+}
+
 func srtCopyLoops(r *srtRoles) []Obligation {
 	c := r.c
 	var obs []Obligation
@@ -961,17 +1191,24 @@ func srtCopyLoops(r *srtRoles) []Obligation {
 		info := p.TypesInfo
 		for _, fd := range AllFuncDecls(p) {
 			n := 0
+			fieldOf := func(e ast.Expr) (*types.Var, string) {
+				d := srtDeref(info, fd, e)
+				if f := spFieldOf(info, d); f != nil {
+					return f, exprStr(ast.Unparen(d).(*ast.SelectorExpr).X)
+				}
+				return nil, ""
+			}
 			ast.Inspect(fd.Body, func(m ast.Node) bool {
 				var body *ast.BlockStmt
 				var idxObj, valObj types.Object
 				var base string
 				switch lp := m.(type) {
 				case *ast.RangeStmt:
-					if spFieldOf(info, lp.X) != r.instrF {
+					f, b := fieldOf(lp.X)
+					if f != r.instrF {
 						return true
 					}
-					body = lp.Body
-					base = exprStr(ast.Unparen(lp.X).(*ast.SelectorExpr).X)
+					body, base = lp.Body, b
 					if id, ok := lp.Key.(*ast.Ident); ok && id.Name != "_" {
 						idxObj = info.Defs[id]
 					}
@@ -986,8 +1223,13 @@ func srtCopyLoops(r *srtRoles) []Obligation {
 					if !ok {
 						return true
 					}
-					call, ok := ast.Unparen(be.Y).(*ast.CallExpr)
-					if !ok || len(call.Args) != 1 || exprStr(call.Fun) != "len" || spFieldOf(info, call.Args[0]) != r.instrF {
+					bound := srtDeref(info, fd, be.Y)
+					call, ok := bound.(*ast.CallExpr)
+					if !ok || len(call.Args) != 1 || exprStr(call.Fun) != "len" {
+						return true
+					}
+					f, b := fieldOf(call.Args[0])
+					if f != r.instrF {
 						return true
 					}
 					id, ok := ast.Unparen(be.X).(*ast.Ident)
@@ -995,8 +1237,7 @@ func srtCopyLoops(r *srtRoles) []Obligation {
 						return true
 					}
 					idxObj = info.Uses[id]
-					body = lp.Body
-					base = exprStr(ast.Unparen(call.Args[0]).(*ast.SelectorExpr).X)
+					body, base = lp.Body, b
 				default:
 					return true
 				}
@@ -1040,16 +1281,24 @@ func srtCopyLoops(r *srtRoles) []Obligation {
 				if len(instrs) > 0 && len(spans) == 0 {
 					bad = append(bad, "instructions are copied but no source-map entry is appended")
 				}
+				isIdx := func(e ast.Expr) bool {
+					id, isId := ast.Unparen(e).(*ast.Ident)
+					return isId && idxObj != nil && info.Uses[id] == idxObj
+				}
 				for _, s := range spans {
-					ix, ok := ast.Unparen(s.elem).(*ast.IndexExpr)
+					ix, ok := srtDeref(info, fd, s.elem).(*ast.IndexExpr)
+					var f *types.Var
+					var b string
+					if ok {
+						f, b = fieldOf(ix.X)
+					}
 					switch {
-					case !ok || spFieldOf(info, ix.X) != r.smF:
+					case !ok || f != r.smF:
 						bad = append(bad, fmt.Sprintf("appended span %s is not an element of %s.%s", exprStr(s.elem), base, r.smF.Name()))
-					case exprStr(ast.Unparen(ix.X).(*ast.SelectorExpr).X) != base:
+					case b != base:
 						bad = append(bad, fmt.Sprintf("appended span %s comes from another function value than the ranged %s", exprStr(s.elem), base))
 					default:
-						id, isId := ast.Unparen(ix.Index).(*ast.Ident)
-						if !isId || idxObj == nil || info.Uses[id] != idxObj {
+						if !isIdx(ix.Index) {
 							bad = append(bad, fmt.Sprintf("appended span %s is not indexed by the loop's input index: the entry belongs to a different instruction whenever an element was skipped before", exprStr(s.elem)))
 						} else {
 							good = append(good, exprStr(s.elem))
@@ -1061,8 +1310,8 @@ func srtCopyLoops(r *srtRoles) []Obligation {
 					if id, ok := ast.Unparen(in.elem).(*ast.Ident); ok && valObj != nil && info.Uses[id] == valObj {
 						okI = true
 					}
-					if ix, ok := ast.Unparen(in.elem).(*ast.IndexExpr); ok && spFieldOf(info, ix.X) == r.instrF {
-						if id, ok := ast.Unparen(ix.Index).(*ast.Ident); ok && idxObj != nil && info.Uses[id] == idxObj {
+					if ix, ok := srtDeref(info, fd, in.elem).(*ast.IndexExpr); ok {
+						if f, b := fieldOf(ix.X); f == r.instrF && b == base && isIdx(ix.Index) {
 							okI = true
 						}
 					}
